@@ -219,13 +219,18 @@ pub fn run_c08(ctx: &mut Ctx) {
 // ---------------------------------------------------------------- C31
 
 /// online checker over the hook event stream of one run
-fn check_events(ctx: &mut Ctx, ev: &[Event], what: &serde_json::Value) -> (u64, u64) {
+fn check_events(ctx: &mut Ctx, ev: &[Event], what: &serde_json::Value, flags: ClvmFlags) -> (u64, u64) {
     let mut stack: Vec<&Event> = Vec::new();
     let mut completed = 0;
     let mut maxdepth = 0;
     for e in ev {
         match e {
-            Event::GuardEnter { depth, .. } => {
+            Event::GuardEnter { depth, exempt, .. } => {
+                // the interpreter's own notion of "cost-exempt" is not trusted: only the new cost model
+                // grandfathers guards (extensions 0 and 1 that predate the hard fork)
+                if *exempt && !flags.contains(ClvmFlags::NEW_COST_MODEL) {
+                    ctx.violation("guard-cost-exempt-outside-new-cost-model", json!({"event": format!("{e:?}"), "case": what}));
+                }
                 if *depth != stack.len() + 1 {
                     ctx.violation("guard-depth-mismatch", json!({"event": format!("{e:?}"), "open": stack.len(), "case": what}));
                 }
@@ -274,7 +279,7 @@ fn check31(ctx: &mut Ctx, r: &mut Rng, f: &Forest, prog: Id, env: Id, flags: Clv
         j["outcome"] = o.res.to_json();
         j
     };
-    let (completed, maxdepth) = check_events(ctx, &ev, &what);
+    let (completed, maxdepth) = check_events(ctx, &ev, &what, flags);
     ctx.add("guards_completed", completed);
     ctx.max("max_guard_depth_seen", maxdepth);
     if completed > 0 {
